@@ -653,6 +653,35 @@ func selfcheck(t *testing.T, c core.Cfg, part *core.Partial) {
 			part.Violations = append(part.Violations, core.ViolationRec{Class: v.Class, Detail: v.Detail, Replay: p})
 		}
 	}
+	if c.Property == "C06" && c.Mode != "race" && c.Worker == 4%int(core.EnvInt("VERIF_WORKERS", 1)) {
+		// compiled-model imports that are well-formed JSON / text-proto of some other schema:
+		// every variant once per run (the random plans reach them only a few dozen times)
+		for k, v := range []struct {
+			kind, path string
+			param      int
+		}{
+			{"pbjson", "f1.pb.json", 1}, {"pbjson", "f1.pb.json", 2}, {"textpb", "f1.textpb", 1}, {"pbjson", "f1.pb.json", 0}, {"textpb", "f1.textpb", 0},
+		} {
+			w := &Workload{Family: "plain", Template: fmt.Sprintf("selfcheck-foreign-schema-%d", k), Files: []*FileSpec{
+				{ID: 0, Path: "f0.sysl", Kind: "sysl", Imports: []ImportSpec{{To: 1, Spell: v.path, As: foreignAs(1)}, {To: 2, Spell: "f2"}}},
+				{ID: 1, Path: v.path, Kind: v.kind},
+				{ID: 2, Path: "f2.sysl", Kind: "sysl"}}}
+			for _, f := range w.Files {
+				f.Text = render(w, f)
+			}
+			ft := Fault{File: 1, Kind: "bad-foreign", Certain: true, Param: v.param}
+			applyContentFault(w.Files[1], &ft)
+			w.Faults = []Fault{ft}
+			o := Execute(t, w, core.First{}, 100000)
+			part.Counters.Inc("selfcheck_well_formed_document_of_another_schema")
+			part.Counters.Inc("fault_bad-foreign")
+			for _, v := range Check(w, Model(w), o, nil, true) {
+				p := writeReplay(c, found{v: v, w: w, picks: o.Picks, o: o}, true, 0)
+				part.Violations = append(part.Violations, core.ViolationRec{Class: v.Class, Detail: v.Detail, Replay: p})
+				break
+			}
+		}
+	}
 	if c.Property == "C06" && c.Mode != "race" && c.Worker == 3%int(core.EnvInt("VERIF_WORKERS", 1)) {
 		// Swagger 2.0 documents cut off after a mapping key (a null value where the converter
 		// expects an object), and an array definition without items: rejected documents, which
